@@ -63,13 +63,29 @@ def _sf_writes_outside_lock(E, st, args, kw):
     for oid, fld in st.writes:
         if oid == -1:
             depth += 1 if fld == '<lock+>' else -1
+        elif oid == -2:
+            continue            # a logged READ of a protected field (reads_outside_lock)
         elif depth <= 0:
             n += 1
     return [('val', st, n)]
 
 
+def _sf_reads_outside_lock(E, st, args, kw):
+    """reads_outside_lock(d0): number of reads of the contract's protected_fields (option) made by the code while no lock was held.  The
+    state a lock protects may be inconsistent while another thread holds the lock (here: a curve record is registered BEFORE it is
+    decorated), so a reader outside the lock can observe it: the discipline is 'every access under the lock', reads included."""
+    depth = args[0] if args else 0
+    n = 0
+    for oid, fld in st.writes:
+        if oid == -1:
+            depth += 1 if fld == '<lock+>' else -1
+        elif oid == -2 and depth <= 0:
+            n += 1
+    return [('val', st, n)]
+
+
 for _nm, _fn in (('conj', _sf_conj), ('disj', _sf_disj), ('imp', _sf_imp), ('counting_prefix', _sf_counting_prefix),
-                 ('writes_outside_lock', _sf_writes_outside_lock)):
+                 ('writes_outside_lock', _sf_writes_outside_lock), ('reads_outside_lock', _sf_reads_outside_lock)):
     _c.SPEC_FORMS.setdefault(_nm, _fn)
     _i.SPEC_BUILTINS.setdefault(_nm, _i.BuiltinV('spec.' + _nm, _fn))
 
